@@ -252,6 +252,73 @@ func checkRoundtrip(c cmdCase) []vf.Finding {
 	return fs
 }
 
+// ---- the bytes a command's Marshal returned stay what they were ---------------------------------------------
+//
+// Several structures (often the same structure with other values) are encoded one after the other; every result
+// is kept as returned next to a snapshot of it and decoded only after the last call: it must still be the
+// snapshot, and it must still decode to the fields it was encoded from. A structure whose encoding does not
+// decode back at once is the round-trip sub-checks' finding and is left out here.
+
+type keptCmds struct {
+	Cmds []cmdCase `json:"commands"`
+}
+
+func checkKeptCmds(c keptCmds) []vf.Finding {
+	type kept struct {
+		at        int
+		got, snap []byte
+	}
+	var ks []kept
+	for i, cc := range c.Cmds {
+		if checkRoundtrip(cc) != nil {
+			continue
+		}
+		cmd, _, err := build(cc)
+		if err != nil {
+			return []vf.Finding{vf.F("harness", "bad-case", "%v", err)}
+		}
+		enc, err := safeMarshal(cmd)
+		if err != nil {
+			continue
+		}
+		ks = append(ks, kept{i, enc, append([]byte{}, enc...)})
+	}
+	for _, k := range ks {
+		cc := c.Cmds[k.at]
+		if !bytes.Equal(k.got, k.snap) {
+			d := 0
+			for d < len(k.got) && k.got[d] == k.snap[d] {
+				d++
+			}
+			return []vf.Finding{vf.F(cc.Struct, "returned-bytes-changed-by-later-call", "encoding %d of %d (%d bytes) differs from byte %d on after the later Marshal calls: was %x, is %x", k.at+1, len(c.Cmds), len(k.snap), d, k.snap[d:min(len(k.snap), d+12)], k.got[d:min(len(k.got), d+12)])}
+		}
+	}
+	return nil
+}
+
+func TestEncodingsKept(t *testing.T) {
+	s := vf.Begin(t, P, "encodings-kept")
+	names := smbgen.Names()
+	per := vf.N(8, 120)
+	idx := 0
+	vf.Rapid(s, len(names)*per, func(t *rapid.T) keptCmds {
+		first := names[(idx/per)%len(names)]
+		idx++
+		var c keptCmds
+		for i, n := 0, rapid.IntRange(2, 4).Draw(t, "commands"); i < n; i++ {
+			name := first
+			if i > 0 && rapid.IntRange(0, 2).Draw(t, "other") == 0 {
+				name = names[rapid.IntRange(0, len(names)-1).Draw(t, "struct")]
+			}
+			c.Cmds = append(c.Cmds, genCase(t, name, smbgen.Options{MaxBytes: 24}))
+		}
+		return c
+	}, func(c keptCmds) []vf.Finding {
+		s.Class("struct:" + c.Cmds[0].Struct)
+		return checkKeptCmds(c)
+	}, func(c keptCmds) bool { return len(c.Cmds) >= 2 && nontrivialCase(c.Cmds[0]) })
+}
+
 func genCase(t *rapid.T, name string, o smbgen.Options) cmdCase {
 	e, _ := smbgen.ByName(name)
 	cmd := smbgen.New(e)
